@@ -98,7 +98,7 @@ def is_path_in_repo(path):
         return False
 
 
-def _get_diff_entry_stream(path, blob, ref_name, repo_dir):
+def _get_diff_entry_stream(path, blob, ref_name, repo_dir, missing=False):
     """Get a stream to the notebook, for a given diff entry's path and blob
 
     Returns None if path is not a Notebook file, and EXPLICIT_MISSING_FILE
@@ -109,6 +109,10 @@ def _get_diff_entry_stream(path, blob, ref_name, repo_dir):
         if not path.endswith('.ipynb'):
             return None
         if ref_name is GitRefWorkingTree:
+            if missing:
+                # git reports the file as deleted (e.g. `git rm --cached`)
+                # even if a file of that name is (still) on disk
+                return EXPLICIT_MISSING_FILE
             # Diffing against working copy, use file on disk!
             with pushd(repo_dir):
                 try:
@@ -178,7 +182,8 @@ def changed_notebooks(ref_base, ref_remote, paths=None, repo_dir=None):
         if fa is None:
             continue
         fb = _get_diff_entry_stream(
-            entry.b_path, entry.b_blob, ref_remote, repo_dir)
+            entry.b_path, entry.b_blob, ref_remote, repo_dir,
+            missing=entry.deleted_file)
         if fb is None:
             continue
         yield (fa, fb)
